@@ -26,7 +26,7 @@ pub struct BfsStats {
 }
 
 pub struct Level<S, A> {
-    pub succ: BTreeMap<u128, (u64, S)>,
+    pub succ: BTreeMap<u128, (u64, Option<S>)>,
     pub acc: A,
     pub transitions: u64,
     pub disabled: u64,
@@ -80,6 +80,8 @@ where
                     Some(nxt) => {
                         lvl.transitions += 1;
                         let k = key128(&key(&nxt));
+                        // successors of the last level are only counted, never expanded: drop them
+                        let nxt = if depth + 1 < max_depth { Some(nxt) } else { None };
                         if !seen_ref.contains(&k) {
                             // keep the representative with the smallest (state, action) rank so the
                             // retained trace does not depend on thread scheduling
@@ -99,7 +101,7 @@ where
                 }
             },
         );
-        let mut merged: BTreeMap<u128, (u64, S)> = BTreeMap::new();
+        let mut merged: BTreeMap<u128, (u64, Option<S>)> = BTreeMap::new();
         for lvl in levels {
             stats.transitions += lvl.transitions;
             stats.disabled += lvl.disabled;
@@ -119,21 +121,25 @@ where
         }
         stats.max_depth = depth + 1;
         let mut next = Vec::with_capacity(merged.len());
-        let mut ranked: Vec<(u64, u128, S)> = merged.into_iter().map(|(k, (r, s))| (r, k, s)).collect();
+        let mut ranked: Vec<(u64, u128, Option<S>)> = merged.into_iter().map(|(k, (r, s))| (r, k, s)).collect();
         ranked.sort_by_key(|x| x.0);
+        let mut new_states = 0u64;
         for (_, k, s) in ranked {
             if seen.insert(k) {
-                next.push(s);
+                new_states += 1;
+                if let Some(s) = s {
+                    next.push(s);
+                }
             }
         }
-        stats.states += next.len() as u64;
-        stats.per_level_states.push(next.len() as u64);
+        stats.states += new_states;
+        stats.per_level_states.push(new_states);
+        stats.frontier_at_bound = new_states;
         frontier = next;
         if stats.states > max_states {
             stats.capped = true;
             break;
         }
     }
-    stats.frontier_at_bound = frontier.len() as u64;
     stats
 }
